@@ -53,8 +53,11 @@ def layer_descs(draw):
     n_orb = draw(st.integers(1, 3))
     zs = draw(st.permutations(SPECIES))[:n_orb]
     orbits = []
+    # a fifth of the layers has every orbit on a special in-plane position (0, 1/2, 1/3, 2/3): species on positions that a
+    # normalizer translation exchanges - the case in which the canonical choice of the letters actually has to decide
+    all_special = n_orb >= 2 and draw(st.integers(0, 4)) == 4
     for k in range(n_orb):
-        special = draw(st.integers(0, 2)) == 2
+        special = all_special or draw(st.integers(0, 2)) == 2
         if special:
             xy = [draw(st.sampled_from([0.0, 0.5, 1 / 3, 2 / 3])) for _ in range(2)]
         else:
